@@ -1,28 +1,26 @@
-"""Per-property metadata shared by the checks (evidence) and tools/gen_manifest.py (MANIFEST.json)."""
-
-INFO = {}
-
-
-def reg(pid, **kw):
-    INFO[pid] = kw
+"""Per-property metadata: every harness/cXX.py defines INFO = dict(technique, level_text, level_note, rule,
+partial, assumptions, design_ref).  Collected here for the evidence writer and tools/gen_manifest.py."""
+import glob
+import importlib
+import os
 
 
-reg("C19",
-    technique="Lean 4 proof (refinement of every lazy-list program to ordinary lists, by induction over programs) "
-              "+ model/implementation correspondence on random programs",
-    level_text="Theorems over an executable model of LazyList: for every program built from map (both forms), "
-               "int/negative/slice/fancy indexing, repeat, +, copy, to any depth, the lazy result evaluates to the "
-               "ordinary-list result (errors included), construction consults no callable, and a read evaluates "
-               "exactly the element's dependency chain.  The model is tied to /repo by running the real LazyList "
-               "with instrumented callables on random programs and diffing values, lengths, error kinds and "
-               "per-read evaluation logs against the Lean driver; an independent ordinary-list oracle decides "
-               "the property on the real code.",
-    level_note="Trusted: Lean kernel; axioms propext/Classical.choice/Quot.sound; the Python harness and the "
-               "driver's parser; CPython list/slice semantics are modelled (Core/PyData.lean) and exercised by the "
-               "correspondence, not verified.  Receivers-unchanged is a value-model fact plus a check on real objects.",
-    rule="random programs (depth<=8, base lists of length 0..7, all constructors, all index container kinds); a case "
-         "is one program; distinct = distinct token sequence; non-trivial = depth >= 2",
-    partial=["receivers-unchanged is proved in the value model only; aliasing between the Python lists is observed "
-             "on the real objects (every intermediate list re-read after all later operations)"],
-    assumptions=["callables are deterministic functions of their argument (instrumented test callables)"],
-    design_ref="DESIGN.md section 6, C19")
+class _Info(dict):
+    def _load(self):
+        if self.get("__loaded"):
+            return
+        dict.__setitem__(self, "__loaded", True)
+        here = os.path.dirname(os.path.abspath(__file__))
+        for p in sorted(glob.glob(os.path.join(here, "c[0-9][0-9].py"))):
+            name = os.path.basename(p)[:-3]
+            mod = importlib.import_module("harness." + name)
+            if hasattr(mod, "INFO"):
+                dict.__setitem__(self, name.upper(), mod.INFO)
+
+    def get(self, k, d=None):
+        if k != "__loaded":
+            self._load()
+        return dict.get(self, k, d)
+
+
+INFO = _Info()
